@@ -102,6 +102,34 @@ theorem cos_sin_mag_float {a : Angle F} (ha : a.Inv) :
     have := abs_sub_le (val (FloatLike.sin a.gradeAngle)) (Real.sin (val a.gradeAngle)) (Real.sin (Angle.Tpi a))
     linarith
 
+/-- (B) **`cos² + sin² = 1` for the two gateways in rounded arithmetic**, within `3e-14` -/
+theorem cos_sin_pythagoras_float {a : Angle F} (ha : a.Inv) :
+    |val (Geonum.cos a).mag * val (Geonum.cos a).mag + val (Geonum.sin a).mag * val (Geonum.sin a).mag - 1| ≤ 3 / 10 ^ 14 := by
+  obtain ⟨hc, hs⟩ := cos_sin_mag_float ha
+  obtain ⟨C, hC⟩ : ∃ C : ℝ, C = abs (Real.cos (Angle.Tpi a)) := ⟨_, rfl⟩
+  obtain ⟨S, hS⟩ : ∃ S : ℝ, S = abs (Real.sin (Angle.Tpi a)) := ⟨_, rfl⟩
+  rw [← hC] at hc; rw [← hS] at hs
+  have hC0 : 0 ≤ C := by rw [hC]; exact abs_nonneg _
+  have hS0 : 0 ≤ S := by rw [hS]; exact abs_nonneg _
+  have hC1 : C ≤ 1 := by rw [hC]; exact Real.abs_cos_le_one _
+  have hS1 : S ≤ 1 := by rw [hS]; exact Real.abs_sin_le_one _
+  have hCS : C * C + S * S = 1 := by
+    rw [hC, hS, abs_mul_abs_self, abs_mul_abs_self]
+    have := Real.cos_sq_add_sin_sq (Angle.Tpi a); nlinarith
+  obtain ⟨x, hx⟩ : ∃ x : ℝ, x = val (Geonum.cos a).mag := ⟨_, rfl⟩
+  obtain ⟨y, hy⟩ : ∃ y : ℝ, y = val (Geonum.sin a).mag := ⟨_, rfl⟩
+  rw [← hx] at hc ⊢; rw [← hy] at hs ⊢
+  rw [abs_le] at hc hs
+  have e : x * x + y * y - 1 = (x - C) * (x + C) + (y - S) * (y + S) := by rw [← hCS]; ring
+  rw [e, abs_le]
+  have hxC : 0 ≤ x + C + 1 := by linarith [hc.1]
+  have hyS : 0 ≤ y + S + 1 := by linarith [hs.1]
+  have b1 : x + C ≤ 2 + 6 / 10 ^ 15 := by linarith [hc.2]
+  have b2 : y + S ≤ 2 + 6 / 10 ^ 15 := by linarith [hs.2]
+  have b3 : -(6 / 10 ^ 15) ≤ x + C := by linarith [hc.1]
+  have b4 : -(6 / 10 ^ 15) ≤ y + S := by linarith [hs.1]
+  constructor <;> nlinarith [hc.1, hc.2, hs.1, hs.2]
+
 /-- (B) **`adj` and `opp` in rounded arithmetic**: their magnitudes are `|g|·|cos T|` and `|g|·|sin T|` (true total `T`) to within
     `|g|·(6e-15 + 2⁻⁵³) + 1e-30` — the unsigned Cartesian components; the sign sits in the angle exactly as for `cos` / `sin`
     (`cos_sin_structure`, `cos_sin_lattice`), because scaling by a non-negative magnitude adds no blade (`C05.scale` sign law) -/
